@@ -130,6 +130,25 @@ pub fn c14(s: &mut Sess, rng: &mut Rng, n: u64) {
     let keys: [&[u8]; 3] = [b"a", b"b", b"c"];
     let contents: [&[u8]; 3] = [b"X", b"YY", b"ZZZ"];
     for i in 0..n {
+        // Segment ids change their number of DIGITS at 9 → 10: with n = 2 the 21st operation opens
+        // segment 10. A failure inside that roll-over's checkpoint leaves the records of segments 9
+        // and 10 both uncheckpointed; the overwrite that follows makes their replay ORDER visible.
+        if i % 16 == 6 {
+            let sync = rng.chance(3, 4);
+            let cfg = format!("cfg kind=bytes n=2 sync={} pre=0", sync as u8);
+            let mut ops: Vec<Op> = (0..19u8).map(|j| Op::Put(vec![b'f', j], b"F".to_vec())).collect();
+            ops.push(Op::Put(b"a".to_vec(), b"X".to_vec()));                       // version 20, segment 9
+            let target_op = if rng.chance(1, 2) { Op::Put(b"b".to_vec(), b"YY".to_vec()) } else { Op::Remove(vec![b'f', 3]) }; // version 21, opens segment 10
+            ops.push(target_op);
+            let target = ops.len() - 1;
+            let mut cont = vec![Op::Put(b"a".to_vec(), b"ZZZ".to_vec())];        // version 22, segment 10: overwrites version 20's key
+            if rng.chance(1, 3) { cont.push(Op::Remove(b"a".to_vec())); }
+            s.out.count("history.rollover-into-segment-10");
+            let Some(nev) = run(s, &cfg, &ops, target, 0, 1_000_000, &cont) else { continue };
+            s.out.add("fault.points", nev);
+            for k in 0..nev { run(s, &cfg, &ops, target, 0, k, &cont); }
+            continue;
+        }
         let n_wal = *rng.pick(&[1u64, 2, 3, 10_000]);
         let sync = rng.chance(3, 4);
         let cfg = format!("cfg kind=bytes n={n_wal} sync={} pre=0", sync as u8);
